@@ -14,9 +14,6 @@ CONSTANT MaxLen
 VARIABLES text, st0
 vars == <<text, st0>>
 
-RECURSIVE Texts(_)
-Texts(n) == IF n = 0 THEN {<<>>} ELSE LET S == Texts(n - 1) IN S \cup {Append(t, f) : t \in {x \in S : Len(x) = n - 1}, f \in Forms}
-
 MCInit == text \in Texts(MaxLen) /\ st0 \in States
 MCNext == UNCHANGED vars
 MCSpec == MCInit /\ [][MCNext]_vars
